@@ -753,7 +753,19 @@ class GrammarEval:
             fenv['$in_function'] = True
             params = [a.arg for a in fn.args.args]
             defaults = dict(zip(params[len(params) - len(fn.args.defaults):], fn.args.defaults))
-            if any(isinstance(a, ast.Starred) for a in e.args) or any(k.arg is None for k in e.keywords) or (len(e.args) > len(params) and not fn.args.vararg):
+            # f(*TUPLE): the starred argument is evaluated and spliced in when it is a concrete sequence
+            pos_vals: List[Any] = []
+            star_ok = True
+            for a in e.args:
+                if isinstance(a, ast.Starred):
+                    sv = self.ev(a.value, env, mod, cfg)
+                    if isinstance(sv, (tuple, list)):
+                        pos_vals.extend(sv)
+                    else:
+                        star_ok = False
+                else:
+                    pos_vals.append(('$lazy', a))
+            if not star_ok or any(k.arg is None for k in e.keywords) or (len(pos_vals) > len(params) and not fn.args.vararg):
                 raise Unrecognised(f'call `{norm(e)[:60]}` with star-arguments', e)
             bound = {}
             if f.action.kind == 'method' and isinstance(e.func, ast.Attribute) and params:
@@ -763,13 +775,21 @@ class GrammarEval:
                     bound[params[0]] = self.ev(e.func.value, env, mod, cfg)
                     params = params[1:]
                 fenv['$self'] = env.get('$self', {})
-            for p_, a in zip(params, e.args):
-                bound[p_] = self.ev(a, env, mod, cfg)
+            def val_of(pv):
+                return self.ev(pv[1], env, mod, cfg) if isinstance(pv, tuple) and len(pv) == 2 and pv[0] == '$lazy' else pv
+            for p_, pv in zip(params, pos_vals):
+                bound[p_] = val_of(pv)
             if fn.args.vararg:
                 # def helper(*elements): the surplus positional arguments, as a tuple
-                bound[fn.args.vararg.arg] = tuple(self.ev(a, env, mod, cfg) for a in e.args[len(params):])
+                bound[fn.args.vararg.arg] = tuple(val_of(pv) for pv in pos_vals[len(params):])
             for k in e.keywords:
                 bound[k.arg] = self.ev(k.value, env, mod, cfg)
+            # keyword-only parameters (after *args): given by keyword or defaulted
+            for a_, d_ in zip(fn.args.kwonlyargs, fn.args.kw_defaults):
+                if a_.arg not in bound:
+                    if d_ is None:
+                        raise Unrecognised(f'call `{norm(e)[:60]}` leaves keyword-only parameter {a_.arg} unbound', e)
+                    bound[a_.arg] = self.ev(d_, fenv, fmod, cfg)
             for p_ in params:
                 if p_ not in bound:
                     if p_ not in defaults:
